@@ -145,6 +145,54 @@ def _power_call(e: ast.AST):
     return None
 
 
+def _nics_quant(e: ast.AST):
+    """`all(<x>.enable() for <x> in self.network_interfaces.values())` (generator: short-circuit) or the same over a list
+    comprehension (every interface is called first) -> (quantifier, short-circuit, verb), else None"""
+    if not (isinstance(e, ast.Call) and isinstance(e.func, ast.Name) and e.func.id in ("all", "any") and len(e.args) == 1
+            and not e.keywords and isinstance(e.args[0], (ast.GeneratorExp, ast.ListComp))):
+        return None
+    g = e.args[0]
+    if len(g.generators) != 1 or g.generators[0].ifs or g.generators[0].is_async:
+        raise Unsupported(f"comprehension `{_u(e)[:80]}`")
+    c = g.generators[0]
+    if _u(c.iter) not in ("self.network_interfaces.values()", "list(self.network_interfaces.values())") or not isinstance(c.target, ast.Name):
+        raise Unsupported(f"comprehension over `{_u(c.iter)}`")
+    el = g.elt
+    if not (isinstance(el, ast.Call) and isinstance(el.func, ast.Attribute) and _u(el.func.value) == c.target.id
+            and el.func.attr in ("enable", "disable") and not el.args and not el.keywords):
+        raise Unsupported(f"comprehension element `{_u(el)[:80]}`")
+    return e.func.id, isinstance(g, ast.GeneratorExp), el.func.attr
+
+
+_NODE = None
+_INLINING: List[str] = []
+
+
+def _helper_body(e: ast.AST):
+    """`self._helper()` where `_helper` is another method of Node (not a power method, not the start-up / shut-down actions):
+    the helper's translated body (inlined; recursion and arguments are refused), else None"""
+    if not (isinstance(e, ast.Call) and isinstance(e.func, ast.Attribute) and _u(e.func.value) == "self"):
+        return None
+    name = e.func.attr
+    if _u(e.func) in CALLS or _u(e.func) in ACTIONS or _NODE is None:
+        return None
+    try:
+        fn = find_method(_NODE, name)
+    except Exception:
+        return None
+    if e.args or e.keywords:
+        raise Unsupported(f"arguments in `{_u(e)}`")
+    if name in _INLINING or len(_INLINING) >= 3:
+        raise Unsupported(f"helper `{name}` is recursive or nested too deeply")
+    if any(isinstance(d, ast.Name) and d.id == "property" for d in fn.decorator_list):
+        raise Unsupported(f"`{name}` is a property")
+    _INLINING.append(name)
+    try:
+        return stmts(fn.body, name)
+    finally:
+        _INLINING.pop()
+
+
 def _loop(st: ast.For) -> str:
     """`for x in self.<coll>[.values()|.items()]: <x | self.<coll>[x]>.<m>()` with one statement in the body"""
     if st.orelse or len([b for b in st.body if not _is_noise(b)]) != 1:
@@ -187,11 +235,19 @@ def stmt(st: ast.stmt, where: str) -> str:
     if isinstance(st, ast.If):
         t = stmts(st.body, where)
         e = stmts(st.orelse, where)
-        k = _power_call(st.test)
+        test, neg = st.test, False
+        if isinstance(test, ast.UnaryOp) and isinstance(test.op, ast.Not):
+            test, neg = test.operand, True
+        a, b = (e, t) if neg else (t, e)
+        k = _power_call(test)
         if k:
-            return f"(.ifCall .{k} {t} {e})"
-        if isinstance(st.test, ast.UnaryOp) and isinstance(st.test.op, ast.Not) and _power_call(st.test.operand):
-            return f"(.ifCall .{_power_call(st.test.operand)} {e} {t})"
+            return f"(.ifCall .{k} {a} {b})"
+        q = _nics_quant(test)
+        if q:
+            return f"(.ifNicsQ .{q[0]} {'true' if q[1] else 'false'} .{q[2]} {a} {b})"
+        h = _helper_body(test)
+        if h is not None:
+            return f"(.ifBlock {h} {a} {b})"
         return f"(.ite {bexpr(st.test)} {t} {e})"
     if isinstance(st, ast.Return):
         if st.value is None or (isinstance(st.value, ast.Constant) and st.value.value is None):
@@ -199,6 +255,12 @@ def stmt(st: ast.stmt, where: str) -> str:
         k = _power_call(st.value)
         if k:
             return f"(.retCall .{k})"
+        q = _nics_quant(st.value)
+        if q:
+            return f"(.retNicsQ .{q[0]} {'true' if q[1] else 'false'} .{q[2]})"
+        h = _helper_body(st.value)
+        if h is not None:
+            return f"(.retBlock {h})"
         return f"(.ret {bexpr(st.value)})"
     if isinstance(st, ast.Assign) and len(st.targets) == 1:
         tgt = _u(st.targets[0])
@@ -221,6 +283,12 @@ def stmt(st: ast.stmt, where: str) -> str:
             return "." + ACTIONS[f]
         if f in ("super().apply_timestep", "super().pre_timestep"):
             return ".skip"
+        q = _nics_quant(st.value)
+        if q:
+            return f"(.nicsQ .{q[0]} {'true' if q[1] else 'false'} .{q[2]})"
+        h = _helper_body(st.value)
+        if h is not None:
+            return f"(.block {h})"
         raise Unsupported(f"{where}: call `{_u(st)[:80]}`")
     if isinstance(st, ast.For):
         return _loop(st)
@@ -263,7 +331,9 @@ def tick_power_part(fn: ast.FunctionDef) -> List[ast.stmt]:
 
 
 def programs() -> dict:
+    global _NODE
     node = class_def(parse(BASE), "Node")
+    _NODE = node
     progs = {
         "powerOnProg": stmts(find_method(node, "power_on").body, "power_on"),
         "powerOffProg": stmts(find_method(node, "power_off").body, "power_off"),
